@@ -46,6 +46,9 @@ Inductive ex :=
 | EComp (body : ex) (x : string) (it : ex)     (* [body for x in it]; also the generator handed to bytearray() / sum() *)
 | EReversed (e : ex)                           (* reversed(e), as a list *)
 | ESum (e : ex)                                (* sum(e) *)
+| EAttr (e : ex) (name : string)               (* e.name — objects are dictionaries of their attributes (AttributeError if absent) *)
+| ECopy (e : ex)                               (* e.copy() *)
+| EJoin (e : ex)                               (* b"".join(e) *)
 | EUnknown (src : string).
 
 Inductive st :=
@@ -360,6 +363,33 @@ Definition sum_eval (v : pv) : result pv :=
   | _ => Raise TypeError
   end.
 
+(* objects (an OpCode, an Enum) are dictionaries of their attributes that carry the marker key "__obj__"; a plain dict has no attributes *)
+Definition attr_eval (v : pv) (name : string) : result pv :=
+  match v with
+  | PDict d => match lookup "__obj__" d with
+               | Some _ => match lookup name d with Some x => Ok x | None => Raise AttributeError end
+               | None => Raise AttributeError
+               end
+  | _ => Raise AttributeError
+  end.
+Definition copy_eval (v : pv) : result pv :=
+  match v with
+  | PDict _ | PList _ | PBytes _ => Ok v
+  | _ => Raise AttributeError
+  end.
+Fixpoint join_bytes (l : list pv) : result bytes :=
+  match l with
+  | [] => Ok []
+  | PBytes b :: r => match join_bytes r with Ok t => Ok (b ++ t)%list | Raise e => Raise e end
+  | _ :: _ => Raise TypeError
+  end.
+Definition join_eval (v : pv) : result pv :=
+  match v with
+  | PList l => match join_bytes l with Ok b => Ok (PBytes b) | Raise e => Raise e end
+  | PBytes [] | PDict [] => Ok (PBytes [])
+  | _ => Raise TypeError
+  end.
+
 (* ------------------------------------------------------------------ codec bridge *)
 
 Definition pv_of_value (v : value) : pv := match v with VI n => PInt (Z.of_N n) | VB b => PBytes b end.
@@ -610,6 +640,9 @@ Section Eval.
         end
     | EReversed a => match eval ρ a with Raise x => Raise x | Ok v => reversed_eval v end
     | ESum a => match eval ρ a with Raise x => Raise x | Ok v => sum_eval v end
+    | EAttr a name => match eval ρ a with Raise x => Raise x | Ok v => attr_eval v name end
+    | ECopy a => match eval ρ a with Raise x => Raise x | Ok v => copy_eval v end
+    | EJoin a => match eval ρ a with Raise x => Raise x | Ok v => join_eval v end
     | EUnknown src => unmodelled src
     end.
 
